@@ -13,6 +13,8 @@ namespace MJ.Undef
 inductive V where
   | undef | silent | none
   | bool (b : Bool) | int (i : Int) | str (s : String)
+  /-- a string marked safe (`StringType::Safe`: `|safe`, `|escape`, a capture / macro result under auto-escaping) -/
+  | safe (s : String)
   | seq (xs : List V) | map (kvs : List (String × V))
   /-- a lazy iterable (`ValueKind::Iterable`): what slicing, concatenating or repeating a list gives -/
   | iter (xs : List V)
@@ -22,6 +24,9 @@ inductive V where
   | mac (name : String) (argSpec : List String) (code offset : Nat) (closure : Option Nat) (callerRef : Bool)
   /-- the `loop` object of the loop frame at this height of the frame stack -/
   | loopRef (level : Nat)
+  /-- the module object of `{% import %}` / `{% from .. import %}` (`ExportLocals`): the top-level names of the
+      imported template and what it printed (`undef` when the output was discarded) -/
+  | module (kvs : List (String × V)) (captured : V)
 
 instance : Inhabited V := ⟨.undef⟩
 
@@ -37,17 +42,17 @@ def isTrue : V → Bool
   | undef | silent | none => false
   | bool b => b
   | int i => i != 0
-  | str s => !s.isEmpty
+  | str s | safe s => !s.isEmpty
   | seq xs | iter xs => !xs.isEmpty
   | map kvs | kwargs kvs => !kvs.isEmpty
-  | mac .. | loopRef _ => true
+  | mac .. | loopRef _ | module .. => true
 
 /-- rank of `ValueKind` in the derived `Ord` (see `MJ.Gen.valueKindOrder`) -/
 def kindRank : V → Nat
-  | undef | silent => 0 | none => 1 | bool _ => 2 | int _ => 3 | str _ => 4 | seq _ => 6 | map _ => 7
+  | undef | silent => 0 | none => 1 | bool _ => 2 | int _ => 3 | str _ | safe _ => 4 | seq _ => 6 | map _ => 7
   | iter _ => 6      -- `cmp_kind`: iterables share the slot of the sequences
   | kwargs _ => 7
-  | mac .. | loopRef _ => 9
+  | mac .. | loopRef _ | module .. => 9
 
 /-- `python_string_debug_fmt` (control characters are outside the model domain) -/
 def reprStr (s : String) : String :=
@@ -66,13 +71,14 @@ def repr : V → String
   | bool true => "True"
   | bool false => "False"
   | int i => toString i
-  | str s => reprStr s
+  | str s | safe s => reprStr s
   | seq xs => "[" ++ reprList xs ++ "]"
   | iter xs => "[" ++ reprList xs ++ "]"
   | map kvs => "{" ++ reprPairs kvs ++ "}"
   | kwargs kvs => "{" ++ reprPairs kvs ++ "}"
   | mac n .. => "<macro " ++ n ++ ">"
   | loopRef _ => "<loop>"
+  | module .. => "<module>"
 def reprList : List V → String
   | [] => ""
   | [x] => repr x
@@ -86,8 +92,13 @@ end
 /-- `Display` (what `Emit` writes without auto-escaping, what `~` and `|string` produce) -/
 def display : V → String
   | undef | silent => ""
-  | str s => s
+  | str s | safe s => s
   | v => repr v
+
+/-- the value without its safety mark (most operations do not look at it and return plain values) -/
+def plain : V → V
+  | safe s => str s
+  | v => v
 
 def asNum? : V → Option Int
   | bool b => some (if b then 1 else 0)
@@ -113,7 +124,7 @@ mutual
 def beq : V → V → Bool
   | none, none => true
   | undef, undef | undef, silent | silent, undef | silent, silent => true
-  | str a, str b => a == b
+  | str a, str b | safe a, safe b | safe a, str b | str a, safe b => a == b
   | bool a, bool b => a == b
   | int a, int b => a == b
   | bool a, int b => (if a then 1 else 0) == b
@@ -142,7 +153,7 @@ def cmp : V → V → Ordering
     if kindRank a < kindRank b then .lt
     else if kindRank a > kindRank b then .gt
     else match a, b with
-      | str x, str y => cmpStr x y
+      | str x, str y | safe x, safe y | safe x, str y | str x, safe y => cmpStr x y
       | bool x, bool y => cmpInt (if x then 1 else 0) (if y then 1 else 0)
       | int x, int y => cmpInt x y
       | seq x, seq y | seq x, iter y | iter x, seq y | iter x, iter y => cmpList x y
@@ -172,11 +183,12 @@ def chars (s : String) : List V := s.toList.map (fun c => str (String.singleton 
 def getAttr (v : V) (name : String) : Option V :=
   match v with
   | map kvs => mapGet kvs name
+  | module kvs _ => mapGet kvs name
   | _ => Option.none
 
 /-- `get_item_opt`; outer `Except` = outside the model -/
 def getItem (base key : V) : Except Err (Option V) :=
-  match base, key with
+  match base.plain, key.plain with
   | map kvs, str k => .ok (mapGet kvs k)
   | map _, _ => .ok Option.none
   | seq xs, int i | iter xs, int i => .ok (MJ.Slice.index? xs i)
@@ -194,10 +206,10 @@ def isInfix (needle hay : List Char) : Bool :=
 
 /-- `ops::contains(container, value)` -/
 def contains (container value : V) : Except Err Bool :=
-  match container with
+  match container.plain with
   | undef | silent => .ok false
   | str s => .ok (isInfix (display value).toList s.toList)
-  | map kvs => match value with
+  | map kvs => match value.plain with
     | str k => .ok (mapGet kvs k).isSome
     | _ => .ok false
   | seq xs | iter xs => .ok (xs.any (fun v => beq v value))
@@ -207,7 +219,7 @@ def contains (container value : V) : Except Err Bool :=
 def iterItems : V → Except Err (List V)
   | undef | silent | none => .ok []
   | seq xs | iter xs => .ok xs
-  | str s => .ok (chars s)
+  | str s | safe s => .ok (chars s)
   | map kvs => .ok (kvs.map (fun p => str p.1))
   | _ => .error .invalidOperation
 
@@ -231,7 +243,7 @@ def slice (a start stop step : V) : Except Err V :=
       | .error e => .error e
       | .ok sp' =>
         if sp' = some 0 then .error .invalidOperation else
-        match a with
+        match a.plain with
         | undef | silent | none => .ok (seq [])
         | seq xs | iter xs => match MJ.Slice.slice xs st sp sp' with
           | .ok (.ok ys) => .ok (iter ys)
@@ -254,7 +266,7 @@ def arith (op : ArOp) (a b : V) : Except Err V :=
   match asNum? a, asNum? b with
   | some x, some y => .ok (int (match op with | .add => x + y | .sub => x - y | .mul => x * y))
   | _, _ =>
-    match op, a, b with
+    match op, a.plain, b.plain with
     | .add, str x, str y => .ok (str (x ++ y))
     | .add, seq x, seq y | .add, seq x, iter y | .add, iter x, seq y | .add, iter x, iter y => .ok (iter (x ++ y))
     | .mul, str x, n | .mul, n, str x =>
@@ -273,15 +285,45 @@ def neg : V → Except Err V
   | _ => .error .invalidOperation
 
 
+/-- `HtmlEscape` (the escape table is regenerated from utils.rs: `MJ.Gen.htmlEscapeTable`) -/
+def htmlEscape (s : String) : String :=
+  String.join (s.toList.map (fun c =>
+    match MJ.Gen.htmlEscapeTable.find? (fun p => p.1 == c) with
+    | some p => p.2
+    | Option.none => String.singleton c))
+
+/-- what `write_escaped` writes for a value: a safe string as it is; without auto-escaping the `Display`
+    text; with HTML auto-escaping strings and the text of containers escaped, undefined / none / booleans /
+    numbers as they are (`write_with_html_escaping`) -/
+def writeText (autoEscape : Bool) : V → String
+  | safe s => s
+  | v =>
+    if autoEscape then
+      match v with
+      | str s => htmlEscape s
+      | undef | silent | none | bool _ | int _ => display v
+      | v => htmlEscape (display v)
+    else display v
+
+/-- `StringInput::preserve_safety` -/
+def preserve (input : V) (s : String) : V :=
+  match input with
+  | safe _ => safe s
+  | _ => str s
+
+def isSafe : V → Bool
+  | safe _ => true
+  | _ => false
+
 /-- objects whose rendering / comparison the model does not reproduce: an instruction that would
     look inside one is outside the modelled fragment -/
 def isOpaque : V → Bool
-  | mac .. | loopRef _ | kwargs _ => true
+  | mac .. | loopRef _ | kwargs _ | module .. => true
   | _ => false
 
 /-- macro objects and the loop object (keyword arguments are ordinary arguments of a builtin) -/
 def isObject : V → Bool
-  | mac .. | loopRef _ => true
+  | mac .. | loopRef _ | module .. => true
   | _ => false
 
 end V
